@@ -13,6 +13,7 @@ M = [
  ("c02_excludes_only_first_listed", "src/library/prog_args/detail/constraint_container.cpp",
   "         mConstraints.addArgument( Data( constraint_type, created_by), search);\n",
   "         mConstraints.addArgument( Data( constraint_type, created_by), search);\n         if (constraint_type == Constraint::excluded)\n            break;   // for\n"),
+ ("c02_pattern_search_not_match", "src/library/prog_args/detail/check_pattern.cpp", "if (!std::regex_match( val, base_match, mRegEx))", "if (!std::regex_search( val, base_match, mRegEx))"),
  ("c03_lower_exclusive", "src/celma/prog_args/detail/check_lower.hpp", "if (native < mCheckValue)", "if (native <= mCheckValue)"),
  ("c03_exact_key_ambiguous", "src/library/prog_args/detail/argument_container.cpp", "            ambiguous = true;",
   "            throw runtime_error( \"Long argument abbreviation matches more than one argument\");"),
